@@ -17,12 +17,22 @@ import z3
 
 from vf.common import Plan, Obligation, Outcome, DISCHARGED, FAULT
 from vf.pyvc.engine import (World, T, Int, Float, Label, LabelSort, SeqT, Rec, SeqV, PyList, FloatV, Unsupp, to_int_term, real_of)
-from vf.pyvc.contract import FnContract, Case, LoopSpec, obligations_for, lemma
+from vf.pyvc.contract import FnContract, Case, LoopSpec, obligations_for
+from vf.pyvc.contract import lemma as _lemma
 from vf.pyvc.interp import Interp
 from vf.pyvc import spec as S
 from vf.pyvc.spec import And
 
 MIT = "pennylane/noise/mitigate.py"
+LEMMA_HYPS = []
+
+
+def lemma(pid, name, vars_, goal, *, assumptions=(), **kw):
+    """contract.lemma, remembering the hypotheses (their joint satisfiability is checked by an obligation of its own: a lemma
+    proved from contradictory hypotheses would be vacuous)"""
+    LEMMA_HYPS.append((name, list(assumptions)))
+    return _lemma(pid, name, vars_, goal, assumptions=assumptions, **kw)
+
 SL = z3.SeqSort(LabelSort)
 EMPTY = z3.Empty(SL)
 G = z3.DeclareSort("GroupElem")
@@ -120,6 +130,13 @@ def last_k_reversed(s, k):
     return z3.Implies(z3.And(k >= 1, k <= n), rev_slice_term(s, -k - 1) == REV(z3.Extract(s, n - k, k)))
 
 
+def last_k(s, k):
+    """for 1 <= k <= len(s):  s[-k:]  (the interpreter's term for it) is extract(s, len - k, k)"""
+    n = z3.Length(s)
+    code = Interp.slice(None, SeqV(s, Label), -k, None, None).term
+    return z3.Implies(z3.And(k >= 1, k <= n), code == z3.Extract(s, n - k, k))
+
+
 class FoldInterp(Interp):
     """additive value semantics needed by fold_global: reversed slices and repetition of symbolic-length lists as spec-function terms"""
 
@@ -138,6 +155,7 @@ class FoldInterp(Interp):
 
 
 def build(tier, seed):
+    del LEMMA_HYPS[:]
     plan = Plan("C25", level="proof")
     plan.explanation = (
         "fold_global's real body is executed symbolically for an operation list of symbolic length over abstract letters and a real scale "
@@ -226,6 +244,7 @@ def build(tier, seed):
     L.append(lemma("C25", "seq/snoc-slice", [s_, k_], snoc_slice(s_, k_)))
     L.append(lemma("C25", "seq/split-at", [s_, k_], split_at(s_, k_)))
     L.append(lemma("C25", "slice/last-k-reversed", [s_, k_], last_k_reversed(s_, k_)))
+    L.append(lemma("C25", "slice/last-k", [s_, k_], last_k(s_, k_)))
     for ob in L:
         plan.add(ob)
 
@@ -277,21 +296,38 @@ def build(tier, seed):
 
     def expand_scale(l, F, N):
         """lambda * n written over the monomials the fold counts use (a polynomial identity)"""
-        return l * N == N + 2 * F * N + (l - 1 - 2 * F) * N
+        return l * N == N + 2 * F * N + (l - z3.RealVal(1) - F * z3.RealVal(2)) * N
+
+    def fold_counts(lam, n):
+        """the fold counts written out as the program text computes them -- floor of (lambda-1)/2, the remainder, round-half-even of
+        remainder*n/2 -- term for term as the interpreter builds them, so that the shape / product goals are pure congruence; that
+        these ARE floor / remainder / round-half-even (independent formulation spec_counts) is the fold-counts obligation"""
+        a = lam - z3.RealVal(1)
+        folds = z3.ToInt(a / z3.RealVal(2))
+        frac = a - z3.ToReal(folds) * z3.RealVal(2)
+        y = (frac * z3.ToReal(n)) / z3.RealVal(2)
+        return folds, frac, y, code_round(y)
+
+    def gate_count_law(lam, n):
+        """pure arithmetic: the exact count n*(1 + 2*folds) + 2k is within 1 of lambda*n"""
+        folds, frac, y, k = fold_counts(lam, n)
+        d = z3.ToReal(n * (1 + 2 * folds) + 2 * k) - lam * z3.ToReal(n)
+        return z3.Implies(z3.And(lam >= 1, n >= 0), z3.And(d <= 1, d >= -1))
 
     def mult_bound(a, b):
         return z3.Implies(z3.And(a >= 0, a < 2, b >= 0), z3.And(a * b / 2 >= 0, a * b / 2 <= b))
     for nm_, goal_, vs_ in (("arith/round-half-even-model-equals-spec", round_law(yv), [yv]), ("arith/round-range", round_range(yv, nv), [yv, nv]),
                             ("arith/scaled-fraction-bound", mult_bound(av, bv), [av, bv]),
-                            ("arith/scale-factor-expansion", expand_scale(yv, av, bv), [yv, av, bv])):
+                            ("arith/scale-factor-expansion", expand_scale(yv, av, bv), [yv, av, bv]),
+                            ("arith/gate-count-within-one-of-scale-factor-times-n", gate_count_law(yv, nv), [yv, nv])):
         plan.add(lemma("C25", nm_, vs_, goal_))
 
     def sym_parts(o, r):
         U = o.tape.f["operations"].term
         n = z3.Length(U)
         lam = o.scale_factor.t
-        folds, frac, y, _ = spec_counts(lam, n)
-        return U, n, lam, folds, frac, y, spec_round(y), ops_of_result(r)
+        folds, frac, y, k = fold_counts(lam, n)
+        return U, n, lam, folds, frac, y, k, ops_of_result(r)
 
     def native_parts(o, r, nw):
         U = list(nw.tape.operations)            # the tape object the function was called with (operations are compared by identity)
@@ -300,14 +336,17 @@ def build(tier, seed):
         batch, _fn = r
         return U, n, folds, k, F, (list(batch[0].operations) if len(batch) == 1 else None)
 
-    def ens_counts_shape(o, r, nw):
+    def ens_counts_shape(o, r, nw, part):
         if isinstance(o.tape, Rec):
             U, n, lam, folds, frac, y, k, ops = sym_parts(o, r)
             if ops is None:
                 return False
-            return And(folds >= 0, z3.ToReal(folds) <= (lam - 1) / 2, (lam - 1) / 2 < z3.ToReal(folds) + 1, frac >= 0, frac < 2,
-                       k >= 0, k <= n, y - z3.ToReal(k) <= HALF, z3.ToReal(k) - y <= HALF,
-                       ops == shape(U, MA(U), n, folds, k))
+            if part == "counts":
+                sf, sfrac, sy, sk = spec_counts(lam, n)
+                return And(folds == sf, frac == sfrac, y == sy, k == sk,                        # the program's counts are the specified ones
+                           folds >= 0, z3.ToReal(folds) <= (lam - 1) / 2, (lam - 1) / 2 < z3.ToReal(folds) + 1, frac >= 0, frac < 2,
+                           k >= 0, k <= n, y - z3.ToReal(k) <= HALF, z3.ToReal(k) - y <= HALF)
+            return ops == shape(U, MA(U), n, folds, k)
         U, n, folds, k, F, ops = native_parts(o, r, nw)
         if ops is None:
             return False
@@ -322,60 +361,25 @@ def build(tier, seed):
         exp = [("b", j) for j in range(n)] + ([("a", j) for j in reversed(range(n))] + [("b", j) for j in range(n)]) * folds
         if k:
             exp += [("a", j) for j in reversed(range(n - k, n))] + [("b", j) for j in range(n - k, n)]
-        return folds >= 0 and 0 <= k <= n and [sig(op) for op in ops] == exp
-
-    def ens_gate_count(o, r, nw):
-        if isinstance(o.tape, Rec):
-            U, n, lam, folds, frac, y, k, ops = sym_parts(o, r)
-            if ops is None:
-                return False
-            ln = z3.Length(ops)
-            diff = z3.ToReal(ln) - lam * z3.ToReal(n)
-            return And(ln == n * (1 + 2 * folds) + 2 * k, diff <= 1, diff >= -1)
-        U, n, folds, k, F, ops = native_parts(o, r, nw)
-        return ops is not None and len(ops) == n * (1 + 2 * folds) + 2 * k and abs(len(ops) - F * n) <= 1
-
-    def ens_same_unitary(o, r, nw):
-        if isinstance(o.tape, Rec):
-            U, n, lam, folds, frac, y, k, ops = sym_parts(o, r)
-            return False if ops is None else (EV(ops) == EV(U))
         import numpy as np
         import pennylane as qp
-        U, n, folds, k, F, ops = native_parts(o, r, nw)
-        if ops is None:
-            return False
-        if n == 0 or len(ops) > 80:
-            return True
-        return bool(np.allclose(qp.matrix(qp.tape.QuantumScript(ops), wire_order=[0, 1]), qp.matrix(nw.tape, wire_order=[0, 1])))
+        same_u = True
+        if n and len(ops) <= 80:
+            same_u = bool(np.allclose(qp.matrix(qp.tape.QuantumScript(ops), wire_order=[0, 1]), qp.matrix(nw.tape, wire_order=[0, 1])))
+        return (folds >= 0 and 0 <= k <= n and [sig(op) for op in ops] == exp and len(ops) == n * (1 + 2 * folds) + 2 * k
+                and abs(len(ops) - F * n) <= 1 and same_u)
 
-    def fold_axioms(o, r, nw, loc, group=False):
-        """instances of the proved lemmas on the terms of this path (spec terms and the code's own terms); the product facts and
-        the ground instances of the group identity law only where the same-unitary goal needs them (quantified axioms in the
-        context make z3 give up on the arithmetic / sequence goals)"""
+    def fold_axioms(o, r, nw, loc, kind):
+        """instances of the proved lemmas on the terms of this path -- only what the goal of this case needs"""
         U, n, lam, folds, frac, y, k, ops = sym_parts(o, r)
-        A = MA(U)
-        out = [z3.Extract(U, 0, n) == U, len_ma(U), round_law(y), round_range(y, n), mult_bound(frac, z3.ToReal(n)), EV(EMPTY) == E,
-               z3.ToReal(folds * n) == z3.ToReal(folds) * z3.ToReal(n), expand_scale(lam, z3.ToReal(folds), z3.ToReal(n))]
-        if group:
-            out += [MUL(E, E) == E, MUL(EV(U), E) == EV(U)]
-        As = [A]
+        bounds = [round_law(y), round_range(y, n), mult_bound(frac, z3.ToReal(n))]              # => 0 <= k <= n, |y - k| <= 1/2
+        if kind == "counts":
+            sf, sfrac, sy, sk = spec_counts(lam, n)
+            return bounds + [round_law(sy), sy == y]
+        out = [z3.Extract(U, 0, n) == U, len_ma(U), last_k(U, k)] + bounds
         ca = getattr(loc, "adjoints", None)
         if isinstance(ca, SeqV):
-            As.append(ca.term)
-            out.append(last_k_reversed(ca.term, to_int_term(loc.num_to_fold)))
-        fs = getattr(loc, "fraction_scale", None)
-        if isinstance(fs, FloatV):
-            # the code's own scaled fraction (same construction as the interpreter's float arithmetic): its rounding obeys the round law
-            y_code = (fs.t * z3.ToReal(n)) / z3.RealVal(2)
-            out += [round_law(y_code), y_code == y]
-        for A_ in As:
-            Wd = z3.Concat(REV(A_), U)
-            pre, suf, asuf = z3.Extract(U, 0, n - k), z3.Extract(U, n - k, k), z3.Extract(A_, n - k, k)
-            tail = z3.Concat(REV(asuf), suf)
-            rep = REP(Wd, folds)
-            out += [len_rev(A_), len_rev(asuf), len_rep(Wd, folds), split_at(U, n - k), ma_concat(pre, suf), len_ma(pre), len_ma(suf)]
-            if group:
-                out += [inv_word(U), inv_word(suf), ev_rep(Wd, folds), ev_concat(U, z3.Concat(rep, tail)), ev_concat(U, rep), ev_concat(rep, tail)]
+            out.append(last_k_reversed(ca.term, k))
         return out
 
     def comp_inv(v):
@@ -405,15 +409,41 @@ def build(tier, seed):
             m["tape"] = {"__class__": "Tape", "operations": [f"L{j}" for j in range(rng.randint(0, 6))]}
         return m
 
-    def fold_case(label, ens, group=False):
+    def fold_case(label, ens, kind):
         return Case(label, {"tape": T("rec", "Tape"), "scale_factor": Float},
                     requires=lambda a: (a.scale_factor.t >= 1) if isinstance(a.scale_factor, FloatV) else a.scale_factor >= 1,
-                    ensures=ens, axioms=lambda o, r, nw, loc: fold_axioms(o, r, nw, loc, group),
+                    ensures=ens, axioms=lambda o, r, nw, loc: fold_axioms(o, r, nw, loc, kind),
                     loops={"comp1": LoopSpec(comp_inv, types={"comp_r": SeqT(Label)}, axioms=comp_ax)},
                     native_gen=fix_lambda, native_call=call_fold)
-    fold = FnContract(w, "fold_global", [fold_case("any-length-real-scale-factor/fold-counts-and-shape", ens_counts_shape),
-                                         fold_case("any-length-real-scale-factor/gate-count-matches-scale-factor", ens_gate_count),
-                                         fold_case("any-length-real-scale-factor/same-unitary-in-every-group", ens_same_unitary, group=True)])
+    fold = FnContract(w, "fold_global", [
+        fold_case("any-length-real-scale-factor/fold-counts", lambda o, r, nw: ens_counts_shape(o, r, nw, "counts"), "counts"),
+        fold_case("any-length-real-scale-factor/shape-of-the-folded-circuit", lambda o, r, nw: ens_counts_shape(o, r, nw, "shape"), "shape")])
+
+    # ---- consequences of the shape (no program involved): gate count and same unitary ----------------------------------------------
+    Uc = z3.Const("U", SL)
+    lc = z3.Real("lam")
+    nc = z3.Length(Uc)
+    fo_, fr_, y_, kk_ = fold_counts(lc, nc)
+    Ac = MA(Uc)
+    Wc = z3.Concat(REV(Ac), Uc)
+    prec, sufc, asufc = z3.Extract(Uc, 0, nc - kk_), z3.Extract(Uc, nc - kk_, kk_), z3.Extract(Ac, nc - kk_, kk_)
+    tailc = z3.Concat(REV(asufc), sufc)
+    repc = REP(Wc, fo_)
+    SH = shape(Uc, Ac, nc, fo_, kk_)
+    bounds_c = [lc >= 1, round_law(y_), round_range(y_, nc), mult_bound(fr_, z3.ToReal(nc))]
+    lnc = z3.Length(SH)
+    dc = z3.ToReal(lnc) - lc * z3.ToReal(nc)
+    exact_c = lnc == nc * (1 + 2 * fo_) + 2 * kk_
+    plan.add(lemma("C25", "consequence/gate-count-of-the-folded-shape-is-exact", [Uc, lc], exact_c,
+                   assumptions=bounds_c + [len_ma(Uc), len_rev(Ac), len_rev(asufc), len_rep(Wc, fo_)],
+                   sample="len(U ++ (rev(U+) ++ U)^folds ++ tail) == n*(1 + 2*folds) + 2k"))
+    # |len - lambda*n| <= 1 then is the arithmetic lemma arith/gate-count-within-one-of-scale-factor-times-n applied to the exact count
+    plan.add(lemma("C25", "consequence/same-unitary-of-the-folded-shape", [Uc, lc], EV(SH) == EV(Uc),
+                   assumptions=bounds_c + [len_ma(Uc), split_at(Uc, nc - kk_), ma_concat(prec, sufc), len_ma(prec), len_ma(sufc),
+                                           inv_word(Uc), inv_word(sufc), ev_rep(Wc, fo_), ev_concat(Uc, z3.Concat(repc, tailc)), ev_concat(Uc, repc),
+                                           ev_concat(repc, tailc), ev_concat(Uc, z3.Concat(repc, EMPTY)), EV(EMPTY) == E, MUL(E, E) == E, MUL(EV(Uc), E) == EV(Uc)],
+                   sample="product(folded shape) == product(U) in every group where image(adjoint(x)) is the inverse of image(x)"))
+
     ch = FnContract(w, "fold_global", [
         Case("circuit-with-a-channel-is-rejected",
              {"tape": T("build", lambda ctx, name: Rec(w.classes["Tape"], {"operations": PyList([z3.Const(ctx.fresh_name("op"), LabelSort),
@@ -425,6 +455,20 @@ def build(tier, seed):
              ensures=lambda o, r, nw: And(isinstance(r, tuple) and len(r) == 2, r[0] == z3.ToInt(o.a.t / 2), r[1].t == o.a.t - 2 * z3.ToReal(z3.ToInt(o.a.t / 2)),
                                           r[1].t >= 0, r[1].t < 2) if isinstance(o.a, FloatV)
              else (r[0] == pymath.floor(Fraction(o.a) / 2) and abs(r[1] - (o.a - 2 * r[0])) < 1e-12 and 0 <= r[1] < 2))])
+    def hyps_consistent(snapshot=tuple(LEMMA_HYPS)):
+        bad = []
+        for name, asm in snapshot:
+            sv = z3.Solver()
+            sv.set("timeout", 4000)
+            sv.add(*asm)
+            if sv.check() == z3.unsat:
+                bad.append(name)
+        if bad:
+            return Outcome(FAULT, "z3", f"contradictory lemma hypotheses: {bad}")
+        return Outcome(DISCHARGED, "z3", f"hypotheses of {len(snapshot)} lemmas are not refutable (sat / unknown with quantified group axioms)")
+    plan.add(Obligation("C25/lemma-hypotheses-are-consistent", "lemma", hyps_consistent, bounded=True,
+                        sample="no lemma is proved from contradictory hypotheses"))
+
     for fc in (fold, ch, dm):
         for case in fc.cases:
             case.interp_cls = FoldInterp
